@@ -12,12 +12,12 @@ IGNORED_CATEGORIES = {"NaN", "arithmetic_overflow", "division-by-zero", "float-o
 INFRA_CATEGORIES = {"unwind", "unsupported_construct", "safety_check", "precondition_instance",
                     "pointer_dereference", "pointer", "memory-leak", "unreachable", "assume",
                     "bounds", "pointer_primitives", "pointer_arithmetic", "enum", "alignment_check"}
-MEM_LIMIT = 14 * 1024 ** 3
+MEM_LIMIT = 24 * 1024 ** 3
 
 
 class Harness:
     def __init__(self, name, mod, tier="quick", functions=(), bounds="", role="", stubs=(),
-                 assumes=(), playback=True, native=None, expect_unwind=None):
+                 assumes=(), playback=None, native=None, expect_fail=()):
         self.name = name
         self.mod = mod                # module path inside the crate, e.g. "verif_kani::c18"
         self.tier = tier              # quick harnesses also run in thorough
@@ -26,7 +26,11 @@ class Harness:
         self.role = role
         self.stubs = list(stubs)
         self.assumes = list(assumes)
-        self.playback = playback and not stubs
+        # stubs are not active in native playback; playback is only meaningful there when the
+        # harness says so explicitly (all harness-level kani::any() precede the first stub call and
+        # the stub over-approximates the real function)
+        self.playback = (not stubs) if playback is None else playback
+        self.expect_fail = list(expect_fail)   # descriptions of panics that MUST be reachable
         self.native = native          # name of a native confirmer (replay crate) when playback is impossible
 
     @property
@@ -132,6 +136,7 @@ def classify(prop, h, res):
         return out
     out["n_checks"] = len(checks)
     seen = set()
+    expected_hit = {e: False for e in h.expect_fail}
     for c in checks:
         cat, st = c.get("category"), c.get("status")
         desc = (c.get("description") or "").strip('"')
@@ -154,6 +159,11 @@ def classify(prop, h, res):
             continue
         if cat in IGNORED_CATEGORIES:
             continue
+        exp = next((e for e in h.expect_fail if e == "*" or e in desc), None)
+        if st == "Failure" and cat == "assertion" and exp is not None and in_repo:
+            expected_hit[exp] = True
+            out["obligations"].append({"where": where, "description": "documented panic reachable: " + desc})
+            continue
         if st == "Failure" and cat == "assertion":
             role = re.sub(r"\s+", "_", desc)[:80]
             site = "harness" if in_verif else ("repo:" + os.path.basename(f) if in_repo else "std")
@@ -162,6 +172,13 @@ def classify(prop, h, res):
                                            detail={"check": c}))
             continue
         out["infra"].append(f"{h.name}: {cat} check {st}: {desc} at {where}")
+    uniq0 = out["findings"]
+    for e, hit in expected_hit.items():
+        if not hit:
+            # the harness asserts false after the call, so a missing panic shows up as that finding;
+            # neither a panic nor a return would mean the harness is vacuous
+            if not out["findings"]:
+                out["infra"].append(f"{h.name}: expected panic {e!r} not reachable and call does not return (vacuous)")
     # several failed checks may share a key; keep one per key
     uniq = {}
     for f_ in out["findings"]:
@@ -205,8 +222,9 @@ def concrete_playback(prop, h, timeout_s):
         lf.write("$ " + " ".join(cmd) + "\n")
         lf.flush()
         try:
+            # no address-space limit here: kani-driver itself needs memory to parse CBMC's trace
             subprocess.run(cmd, cwd=REPO, env=env_offline(), stdout=lf, stderr=subprocess.STDOUT,
-                           preexec_fn=_limit, timeout=timeout_s + 900)
+                           timeout=timeout_s + 900)
         except subprocess.TimeoutExpired:
             pass
     text = open(log).read()
